@@ -304,3 +304,490 @@ Proof.
   unfold with_open, with_cur. cbn [s_name s_units s_done s_cur s_open s_width s_key s_path_started].
   reflexivity.
 Qed.
+
+(* ---- simple paths *)
+Definition path_ok (h : gpath) : Prop :=
+  fits16 (h_layer h) /\ fits16 (h_type h) /\ Forall fits_pt (h_pts h) /\ Forall prop_ok (h_props h) /\
+  (2 <= length (h_pts h))%nat /\ (0 <= h_width h < 2147483648)%Z /\
+  (h_width h = 0%Z -> h_scale_width h = true) /\
+  match h_end h with EExt => fits32 (fst (h_ext h)) /\ fits32 (snd (h_ext h)) | _ => h_ext h = (0, 0)%Z end.
+Definition canon_path (h : gpath) : gpath :=
+  Build_gpath (h_layer h) (h_type h) (h_end h) (h_width h) (h_scale_width h) (h_ext h) (h_pts h) (canon_props (h_props h)).
+
+Lemma end_code_roundtrip e :
+  match d16 (swap2 (enc16 (end_code e))) 0 with 0%Z => EFlush | 1%Z => ERound | 2%Z => EHalf | _ => EExt end = e.
+Proof. destruct e; vm_compute; reflexivity. Qed.
+
+Lemma run_path f nm un dn c b wd ky ps h tl :
+  path_ok h ->
+  exists wd' ky' ps',
+  run f (Build_rstate nm un dn (Some (c, b)) None wd ky ps) (path_records h ++ tl) =
+  run f (Build_rstate nm un dn (Some (commit f c (EPath (canon_path h)), b)) None wd' ky' ps') tl.
+Proof.
+  intros (Hl & Ht & Hp & Hpr & Hn & Hw & Hw0 & Hext). destruct h as [la ty en hw sw ex pts pr].
+  cbn [h_layer h_type h_end h_width h_scale_width h_ext h_pts h_props] in *.
+  unfold path_records. cbn [h_layer h_type h_end h_width h_scale_width h_ext h_pts h_props].
+  replace (length pts <? 2)%nat with false by (symmetry; apply Nat.ltb_ge; lia).
+  rewrite <- !app_assoc. cbn [app]. step_simpl.
+  rewrite d16_enc16' by assumption. rewrite d16_enc16' by assumption.
+  rewrite end_code_roundtrip.
+  set (w := if sw then hw else (- hw)%Z).
+  assert (Hfw : fits32 w) by (unfold fits32; subst w; destruct sw; lia).
+  rewrite d32_enc32' by assumption.
+  assert (Habs : Z.abs w = hw) by (subst w; destruct sw; lia).
+  assert (Hsw : (0 <=? w)%Z = sw).
+  { subst w. destruct sw; [apply Z.leb_le; lia|]. apply Z.leb_gt.
+    destruct (Z.eq_dec hw 0) as [E|E]; [specialize (Hw0 E); discriminate|lia]. }
+  rewrite Habs, Hsw.
+  assert (Hne : pts <> []) by (destruct pts; [cbn [length] in Hn; lia|discriminate]).
+  destruct en.
+  - cbn [app]. rewrite run_xy_path_first by (assumption || lia).
+    rewrite run_props by assumption. rewrite set_all_path. unfold endel. step_simpl.
+    subst ex. do 3 eexists. reflexivity.
+  - cbn [app]. rewrite run_xy_path_first by (assumption || lia).
+    rewrite run_props by assumption. rewrite set_all_path. unfold endel. step_simpl.
+    subst ex. do 3 eexists. reflexivity.
+  - cbn [app]. rewrite run_xy_path_first by (assumption || lia).
+    rewrite run_props by assumption. rewrite set_all_path. unfold endel. step_simpl.
+    subst ex. do 3 eexists. reflexivity.
+  - destruct Hext as [He0 He1]. destruct ex as [e0 e1]. cbn [fst snd] in *.
+    cbn [app]. step_simpl. rewrite d32_enc32' by assumption. rewrite d32_enc32' by assumption. cbn [fst snd].
+    rewrite run_xy_path_first by (assumption || lia).
+    rewrite run_props by assumption. rewrite set_all_path. unfold endel. step_simpl.
+    do 3 eexists. reflexivity.
+Qed.
+
+(* ---- references and labels *)
+Lemma d32_skip a l i : d32 (swap4 (enc32 a ++ l)) (S i) = d32 (swap4 l) i.
+Proof.
+  unfold d32, enc32. cbn [app swap4]. replace (4 * S i)%nat with (S (S (S (S (4 * i))))) by lia.
+  cbn [skipn]. reflexivity.
+Qed.
+
+Lemma d16_refl_bit (refl : bool) : Z.ltb (d16 (swap2 (if refl then [128; 0] else [0; 0])) 0) 0%Z = refl.
+Proof. destruct refl; vm_compute; reflexivity. Qed.
+
+Lemma d16_pair0 a z : fits16 a -> d16 (swap2 (enc16 a ++ enc16 z)) 0 = a.
+Proof. intros H. apply d16_enc16. assumption. Qed.
+Lemma d16_pair1 a z : fits16 z -> d16 (swap2 (enc16 a ++ enc16 z)) 1 = z.
+Proof. intros H. rewrite <- (app_nil_r (enc16 z)). apply d16_enc16_1. assumption. Qed.
+
+Definition real_ok (v : N) : Prop := v < 18446744073709551616.
+
+(* STRANS / MAG / ANGLE on an open reference *)
+Lemma run_strans_ref f nm un dn cu wd ky ps rn ro rp pr refl mag rot tl :
+  real_ok mag -> real_ok rot ->
+  run f (Build_rstate nm un dn cu (Some (ERef (Build_gref rn ro false real_one 0 rp pr))) wd ky ps)
+        (strans_records refl mag rot ++ tl) =
+  run f (Build_rstate nm un dn cu (Some (ERef (Build_gref rn ro refl mag rot rp pr))) wd ky ps) tl.
+Proof.
+  intros Hm Hr. unfold strans_records.
+  destruct (negb refl && (mag =? real_one) && (rot =? 0)) eqn:E.
+  - apply andb_prop in E. destruct E as [E Er]. apply andb_prop in E. destruct E as [Ef Em].
+    apply N.eqb_eq in Er, Em. subst. destruct refl; [discriminate|]. reflexivity.
+  - clear E. rewrite <- !app_assoc. cbn [app]. step_simpl. rewrite d16_refl_bit.
+    destruct (mag =? real_one) eqn:Em.
+    + apply N.eqb_eq in Em. subst mag. cbn [app].
+      destruct (rot =? 0) eqn:Er.
+      * apply N.eqb_eq in Er. subst rot. reflexivity.
+      * cbn [app]. step_simpl. rewrite d64_enc64' by assumption. reflexivity.
+    + cbn [app]. step_simpl. rewrite d64_enc64' by assumption.
+      destruct (rot =? 0) eqn:Er.
+      * apply N.eqb_eq in Er. subst rot. reflexivity.
+      * cbn [app]. step_simpl. rewrite d64_enc64' by assumption. reflexivity.
+Qed.
+
+Lemma run_strans_label f nm un dn cu wd ky ps la ty tx o an pr refl mag rot tl :
+  real_ok mag -> real_ok rot ->
+  run f (Build_rstate nm un dn cu (Some (ELabel (Build_glabel la ty tx o an false real_one 0 pr))) wd ky ps)
+        (strans_records refl mag rot ++ tl) =
+  run f (Build_rstate nm un dn cu (Some (ELabel (Build_glabel la ty tx o an refl mag rot pr))) wd ky ps) tl.
+Proof.
+  intros Hm Hr. unfold strans_records.
+  destruct (negb refl && (mag =? real_one) && (rot =? 0)) eqn:E.
+  - apply andb_prop in E. destruct E as [E Er]. apply andb_prop in E. destruct E as [Ef Em].
+    apply N.eqb_eq in Er, Em. subst. destruct refl; [discriminate|]. reflexivity.
+  - clear E. rewrite <- !app_assoc. cbn [app]. step_simpl. rewrite d16_refl_bit.
+    destruct (mag =? real_one) eqn:Em.
+    + apply N.eqb_eq in Em. subst mag. cbn [app].
+      destruct (rot =? 0) eqn:Er.
+      * apply N.eqb_eq in Er. subst rot. reflexivity.
+      * cbn [app]. step_simpl. rewrite d64_enc64' by assumption. reflexivity.
+    + cbn [app]. step_simpl. rewrite d64_enc64' by assumption.
+      destruct (rot =? 0) eqn:Er.
+      * apply N.eqb_eq in Er. subst rot. reflexivity.
+      * cbn [app]. step_simpl. rewrite d64_enc64' by assumption. reflexivity.
+Qed.
+
+Definition rep_ok_g (origin : pt) (refl : bool) (rot : N) (g : grep) : Prop :=
+  fits16 (g_cols g) /\ fits16 (g_rows g) /\ fits_pt (g_p2 g) /\ fits_pt (g_p3 g) /\
+  g_regular g = negb ((real_mantissa rot =? 0) && negb refl) /\
+  (g_regular g = false -> snd (g_p2 g) = snd origin /\ fst (g_p3 g) = fst origin).
+
+Definition ref_ok (r : gref) : Prop :=
+  no_nul (r_name r) /\ fits_pt (r_origin r) /\ real_ok (r_mag r) /\ real_ok (r_rot r) /\ Forall prop_ok (r_props r) /\
+  match r_rep r with None => True | Some g => rep_ok_g (r_origin r) (r_refl r) (r_rot r) g end.
+Definition canon_ref (r : gref) : gref :=
+  Build_gref (r_name r) (r_origin r) (r_refl r) (r_mag r) (r_rot r) (r_rep r) (canon_props (r_props r)).
+
+Lemma run_ref f nm un dn c b wd ky ps r tl :
+  ref_ok r ->
+  exists wd' ky' ps',
+  run f (Build_rstate nm un dn (Some (c, b)) None wd ky ps) (ref_records r ++ tl) =
+  run f (Build_rstate nm un dn (Some (commit f c (ERef (canon_ref r)), b)) None wd' ky' ps') tl.
+Proof.
+  intros (Hn & Ho & Hm & Hr & Hpr & Hrep). destruct r as [rn [ox oy] refl mag rot rp pr].
+  cbn [r_name r_origin r_refl r_mag r_rot r_rep r_props] in *. destruct Ho as [Hox Hoy]. cbn [fst snd] in Hox, Hoy.
+  unfold ref_records. cbn [r_name r_origin r_refl r_mag r_rot r_rep r_props].
+  destruct rp as [g|].
+  - destruct Hrep as (Hc & Hrw & [H2x H2y] & [H3x H3y] & Hreg & Hrect).
+    destruct g as [gc gr greg [x2 y2] [x3 y3]]. cbn [g_cols g_rows g_regular g_p2 g_p3 fst snd] in *.
+    rewrite <- !app_assoc. cbn [app]. step_simpl. rewrite strip_nul_pad by assumption.
+    rewrite run_strans_ref by assumption. cbn [app]. step_simpl.
+    rewrite d16_pair0 by assumption. rewrite d16_pair1 by assumption.
+    unfold enc_points. cbn [flat_map]. rewrite <- !app_assoc. rewrite app_nil_r.
+    rewrite d32_enc32 by assumption. rewrite d32_enc32_1 by assumption.
+    rewrite !d32_skip. repeat (rewrite d32_enc32 by assumption). rewrite d32_enc32' by assumption.
+    cbn [fst snd g_cols g_rows].
+    rewrite run_props by assumption. rewrite set_all_ref. unfold endel. step_simpl.
+    do 3 eexists. unfold canon_ref. cbn [r_name r_origin r_refl r_mag r_rot r_rep r_props].
+    destruct ((real_mantissa rot =? 0) && negb refl) eqn:E; cbn [negb] in Hreg; subst greg.
+    + destruct (Hrect eq_refl) as [-> ->]. reflexivity.
+    + reflexivity.
+  - rewrite <- !app_assoc. cbn [app]. step_simpl. rewrite strip_nul_pad by assumption.
+    rewrite run_strans_ref by assumption. cbn [app]. step_simpl.
+    unfold enc_points. cbn [flat_map]. rewrite <- !app_assoc. rewrite app_nil_r.
+    rewrite d32_enc32 by assumption. rewrite d32_skip. rewrite d32_enc32' by assumption.
+    rewrite run_props by assumption. rewrite set_all_ref. unfold endel. step_simpl.
+    do 3 eexists. reflexivity.
+Qed.
+
+(* ---- labels *)
+Definition label_ok (l : glabel) : Prop :=
+  fits16 (l_layer l) /\ fits16 (l_type l) /\ no_nul (l_text l) /\ fits_pt (l_origin l) /\ l_anchor l < 16 /\
+  real_ok (l_mag l) /\ real_ok (l_rot l) /\ Forall prop_ok (l_props l).
+Definition canon_label (l : glabel) : glabel :=
+  Build_glabel (l_layer l) (l_type l) (l_text l) (l_origin l) (l_anchor l) (l_refl l) (l_mag l) (l_rot l)
+               (canon_props (l_props l)).
+
+Lemma anchor_roundtrip a : a < 16 -> Z.to_N (d16 (swap2 (enc16 (Z.of_N a))) 0 mod 16) = a.
+Proof. intros H. rewrite d16_enc16' by (unfold fits16; lia). lia. Qed.
+
+Lemma run_label f nm un dn c b wd ky ps l tl :
+  label_ok l ->
+  exists wd' ky' ps',
+  run f (Build_rstate nm un dn (Some (c, b)) None wd ky ps) (label_records l ++ tl) =
+  run f (Build_rstate nm un dn (Some (commit f c (ELabel (canon_label l)), b)) None wd' ky' ps') tl.
+Proof.
+  intros (Hl & Ht & Htx & Ho & Ha & Hm & Hr & Hpr). destruct l as [la ty tx [ox oy] an refl mag rot pr].
+  cbn [l_layer l_type l_text l_origin l_anchor l_refl l_mag l_rot l_props] in *.
+  destruct Ho as [Hox Hoy]. cbn [fst snd] in Hox, Hoy.
+  unfold label_records. cbn [l_layer l_type l_text l_origin l_anchor l_refl l_mag l_rot l_props].
+  rewrite <- !app_assoc. cbn [app]. step_simpl.
+  rewrite d16_enc16' by assumption. rewrite d16_enc16' by assumption. rewrite anchor_roundtrip by assumption.
+  rewrite run_strans_label by assumption. cbn [app]. step_simpl.
+  unfold enc_points. cbn [flat_map]. rewrite <- !app_assoc. rewrite app_nil_r.
+  rewrite d32_enc32 by assumption. rewrite d32_skip. rewrite d32_enc32' by assumption.
+  rewrite strip_nul_pad by assumption.
+  rewrite run_props by assumption. rewrite set_all_label. unfold endel. step_simpl.
+  do 3 eexists. reflexivity.
+Qed.
+
+(* ================================================================== F. cells and the library *)
+Definition elem_ok (e : gelem) : Prop :=
+  match e with EPoly p => poly_ok p | EPath h => path_ok h | ERef r => ref_ok r | ELabel l => label_ok l end.
+Definition canon_elem (e : gelem) : gelem :=
+  match e with EPoly p => EPoly (canon_poly p) | EPath h => EPath (canon_path h) | ERef r => ERef (canon_ref r)
+          | ELabel l => ELabel (canon_label l) end.
+Definition elem_records (e : gelem) : list grecord :=
+  match e with EPoly p => poly_records p | EPath h => path_records h | ERef r => ref_records r | ELabel l => label_records l end.
+
+Lemma run_elem f nm un dn c b wd ky ps e tl :
+  elem_ok e ->
+  exists wd' ky' ps',
+  run f (Build_rstate nm un dn (Some (c, b)) None wd ky ps) (elem_records e ++ tl) =
+  run f (Build_rstate nm un dn (Some (commit f c (canon_elem e), b)) None wd' ky' ps') tl.
+Proof. destruct e; cbn [elem_ok elem_records canon_elem]; [apply run_poly|apply run_path|apply run_ref|apply run_label]. Qed.
+
+Lemma run_elems f nm un dn b tl : forall es c wd ky ps,
+  Forall elem_ok es ->
+  exists wd' ky' ps',
+  run f (Build_rstate nm un dn (Some (c, b)) None wd ky ps) (flat_map elem_records es ++ tl) =
+  run f (Build_rstate nm un dn (Some (fold_left (commit f) (map canon_elem es) c, b)) None wd' ky' ps') tl.
+Proof.
+  induction es as [|e es IH]; intros c wd ky ps Hok.
+  - do 3 eexists. reflexivity.
+  - inversion Hok as [|? ? He Hes]; subst. cbn [flat_map map fold_left]. rewrite <- app_assoc.
+    destruct (run_elem f nm un dn c b wd ky ps e (flat_map elem_records es ++ tl) He) as (wd1 & ky1 & ps1 & H1).
+    rewrite H1. apply IH. assumption.
+Qed.
+
+Definition cell_elems (c : gcell) : list gelem :=
+  map EPoly (c_polys c) ++ map EPath (c_paths c) ++ map ELabel (c_labels c) ++ map ERef (c_refs c).
+Definition cell_ok (c : gcell) : Prop := no_nul (c_name c) /\ Forall elem_ok (cell_elems c).
+Definition canon_cell (c : gcell) : gcell :=
+  {| c_name := c_name c; c_polys := map canon_poly (c_polys c); c_paths := map canon_path (c_paths c);
+     c_refs := map canon_ref (c_refs c); c_labels := map canon_label (c_labels c) |}.
+
+Lemma flat_map_map_ {A B C} (f : B -> list C) (g : A -> B) l : flat_map f (map g l) = flat_map (fun x => f (g x)) l.
+Proof. induction l as [|a l IH]; [reflexivity|]. cbn [map flat_map]. rewrite IH. reflexivity. Qed.
+
+Lemma cell_records_elems ts c :
+  cell_records ts c = [mkrec 5 2 (ts_bytes ts); mkrec 6 6 (pad_even (c_name c))] ++ flat_map elem_records (cell_elems c) ++ [mkrec 7 0 []].
+Proof.
+  unfold cell_records, cell_elems. rewrite !flat_map_app, !flat_map_map_. cbn [elem_records].
+  rewrite <- !app_assoc. reflexivity.
+Qed.
+
+Lemma commit_polys nm ps : forall P H R L,
+  fold_left (commit None) (map canon_elem (map EPoly ps)) (Build_gcell nm P H R L) = Build_gcell nm (P ++ map canon_poly ps) H R L.
+Proof. induction ps as [|p ps IH]; intros; cbn [map fold_left]; [rewrite app_nil_r; reflexivity|].
+  cbn [canon_elem commit c_name c_polys c_paths c_refs c_labels]. rewrite IH, <- app_assoc. reflexivity. Qed.
+Lemma commit_paths nm hs : forall P H R L,
+  fold_left (commit None) (map canon_elem (map EPath hs)) (Build_gcell nm P H R L) = Build_gcell nm P (H ++ map canon_path hs) R L.
+Proof. induction hs as [|p ps IH]; intros; cbn [map fold_left]; [rewrite app_nil_r; reflexivity|].
+  cbn [canon_elem commit c_name c_polys c_paths c_refs c_labels]. rewrite IH, <- app_assoc. reflexivity. Qed.
+Lemma commit_labels nm ls : forall P H R L,
+  fold_left (commit None) (map canon_elem (map ELabel ls)) (Build_gcell nm P H R L) = Build_gcell nm P H R (L ++ map canon_label ls).
+Proof. induction ls as [|p ps IH]; intros; cbn [map fold_left]; [rewrite app_nil_r; reflexivity|].
+  cbn [canon_elem commit c_name c_polys c_paths c_refs c_labels]. rewrite IH, <- app_assoc. reflexivity. Qed.
+Lemma commit_refs nm rs : forall P H R L,
+  fold_left (commit None) (map canon_elem (map ERef rs)) (Build_gcell nm P H R L) = Build_gcell nm P H (R ++ map canon_ref rs) L.
+Proof. induction rs as [|p ps IH]; intros; cbn [map fold_left]; [rewrite app_nil_r; reflexivity|].
+  cbn [canon_elem commit c_name c_polys c_paths c_refs c_labels]. rewrite IH, <- app_assoc. reflexivity. Qed.
+
+Lemma commit_cell c :
+  fold_left (commit None) (map canon_elem (cell_elems c)) (Build_gcell (c_name c) [] [] [] []) = canon_cell c.
+Proof.
+  unfold cell_elems. rewrite !map_app, !fold_left_app.
+  rewrite commit_polys, commit_paths, commit_labels, commit_refs. reflexivity.
+Qed.
+
+Definition flush (dn : list gcell) (cu : option (gcell * bool)) : list gcell :=
+  match cu with Some (c, true) => dn ++ [c] | _ => dn end.
+
+Lemma run_cell ts nm un dn cu wd ky ps c tl :
+  cell_ok c ->
+  exists wd' ky' ps',
+  run None (Build_rstate nm un dn cu None wd ky ps) (cell_records ts c ++ tl) =
+  run None (Build_rstate nm un (flush dn cu) (Some (canon_cell c, true)) None wd' ky' ps') tl.
+Proof.
+  intros [Hn He]. rewrite cell_records_elems. rewrite <- !app_assoc. cbn [app]. step_simpl.
+  rewrite strip_nul_pad by assumption. unfold flush_cur. cbn [s_cur s_done]. fold (flush dn cu).
+  unfold empty_cell. cbn [c_polys c_paths c_refs c_labels].
+  destruct (run_elems None nm un (flush dn cu) true (mkrec 7 0 [] :: tl) (cell_elems c)
+              (Build_gcell (c_name c) [] [] [] []) wd ky ps He) as (wd1 & ky1 & ps1 & H1).
+  do 3 eexists. rewrite H1. rewrite commit_cell. step_simpl. reflexivity.
+Qed.
+
+Lemma run_cells ts nm un tl : forall cells dn cu wd ky ps,
+  Forall cell_ok cells ->
+  exists dn' cu' wd' ky' ps',
+  run None (Build_rstate nm un dn cu None wd ky ps) (flat_map (cell_records ts) cells ++ tl) =
+  run None (Build_rstate nm un dn' cu' None wd' ky' ps') tl /\
+  flush dn' cu' = flush dn cu ++ map canon_cell cells.
+Proof.
+  induction cells as [|c cells IH]; intros dn cu wd ky ps Hok.
+  - exists dn, cu, wd, ky, ps. split; [reflexivity|]. cbn [map]. rewrite app_nil_r. reflexivity.
+  - inversion Hok as [|? ? Hc Hcs]; subst. cbn [flat_map map]. rewrite <- app_assoc.
+    destruct (run_cell ts nm un dn cu wd ky ps c (flat_map (cell_records ts) cells ++ tl) Hc) as (wd1 & ky1 & ps1 & H1).
+    rewrite H1.
+    destruct (IH (flush dn cu) (Some (canon_cell c, true)) wd1 ky1 ps1 Hcs) as (dn2 & cu2 & wd2 & ky2 & ps2 & H2 & Hf).
+    exists dn2, cu2, wd2, ky2, ps2. split; [exact H2|]. rewrite Hf. cbn [flush]. rewrite <- app_assoc. reflexivity.
+Qed.
+
+Definition lib_ok (l : glib) : Prop :=
+  no_nul (g_name l) /\ real_ok (fst (g_units l)) /\ real_ok (snd (g_units l)) /\ Forall cell_ok (g_cells l).
+Definition canon_lib (l : glib) : glib :=
+  {| g_name := g_name l; g_units := g_units l; g_cells := map canon_cell (g_cells l) |}.
+
+Theorem run_lib ts l : lib_ok l -> run None init_state (lib_records ts l) = SRet (canon_lib l).
+Proof.
+  intros (Hn & Hu0 & Hu1 & Hc). destruct l as [nm [u0 u1] cells]. cbn [g_name g_units g_cells fst snd] in *.
+  unfold lib_records, init_state. cbn [g_name g_units g_cells fst snd]. rewrite <- ?app_assoc. cbn [app]. step_simpl.
+  rewrite strip_nul_pad by assumption.
+  rewrite d64_enc64 by assumption. rewrite <- (app_nil_r (enc64 u1)). rewrite d64_enc64_1 by assumption.
+  destruct (run_cells ts nm (u0, u1) [mkrec 4 0 []] cells [] None 0%Z 0 false Hc) as (dn & cu & wd & ky & ps & H & Hf).
+  rewrite H. step_simpl. unfold flush_cur. cbn [s_cur s_done]. fold (flush dn cu). rewrite Hf.
+  unfold canon_lib. cbn [flush app g_name g_units g_cells]. reflexivity.
+Qed.
+
+(* ================================================================== G. from records to bytes *)
+Definition rec_ok (r : grecord) : Prop :=
+  N.of_nat (length (payload r)) + 4 < 65536 /\ rtype r < 256 /\ dtype r < 256.
+
+Lemma loop_run f : forall recs st fuel rest,
+  Forall rec_ok recs -> (length recs < fuel)%nat ->
+  match run f st recs with
+  | SCont st' => reader_loop rstate (option glib) (step_for_loop f) fuel st (flat_map rec_bytes recs ++ rest) =
+                 reader_loop rstate (option glib) (step_for_loop f) (fuel - length recs) st' rest
+  | SRet l => exists r', reader_loop rstate (option glib) (step_for_loop f) fuel st (flat_map rec_bytes recs ++ rest) = Ok (Some l, r')
+  | SCrash => exists r', reader_loop rstate (option glib) (step_for_loop f) fuel st (flat_map rec_bytes recs ++ rest) = Ok (None, r')
+  end.
+Proof.
+  induction recs as [|r recs IH]; intros st fuel rest Hok Hf.
+  - cbn [run flat_map app length]. rewrite Nat.sub_0_r. reflexivity.
+  - inversion Hok as [|? ? (Hl & Ht & Hd) Hoks]; subst.
+    destruct fuel as [|fu]; [cbn [length] in Hf; lia|].
+    cbn [run flat_map length]. rewrite <- app_assoc. cbn [reader_loop].
+    rewrite next_record_rec_bytes by assumption.
+    change (step_for_loop f st r) with
+      (match step_gds f st r with SCont st' => inl st' | SRet l => inr (Some l) | SCrash => inr None end).
+    destruct (step_gds f st r) as [st'|l|] eqn:Es.
+    + specialize (IH st' fu rest Hoks ltac:(cbn [length] in Hf; lia)).
+      destruct (run f st' recs); [|exact IH|exact IH].
+      rewrite IH. replace (S fu - S (length recs))%nat with (fu - length recs)%nat by lia. reflexivity.
+    + eexists. reflexivity.
+    + eexists. reflexivity.
+Qed.
+
+Lemma read_of_run recs l :
+  Forall rec_ok recs -> run None init_state recs = SRet l ->
+  read_gds_model None (flat_map rec_bytes recs) = Ok l.
+Proof.
+  intros Hok Hrun. unfold read_gds_model, reader.
+  pose proof (loop_run None recs init_state (S (length (flat_map rec_bytes recs))) [] Hok) as H.
+  rewrite app_nil_r in H. rewrite Hrun in H.
+  assert (Hlen : (length recs < S (length (flat_map rec_bytes recs)))%nat).
+  { clear. induction recs as [|r recs IH]; cbn [flat_map length]; [lia|].
+    rewrite app_length. unfold rec_bytes at 1. cbn [length]. lia. }
+  destruct (H Hlen) as [r' Hr]. rewrite Hr. reflexivity.
+Qed.
+
+(* size side conditions: every record the writer emits fits a 16-bit length *)
+Definition str_fits (s : bytes) : Prop := N.of_nat (length s) <= 65000.
+Definition props_fit (ps : gprops) : Prop := Forall (fun p => str_fits (snd p)) ps.
+Definition elem_fits (e : gelem) : Prop :=
+  match e with
+  | EPoly p => props_fit (p_props p)
+  | EPath h => props_fit (h_props h)
+  | ERef r => props_fit (r_props r) /\ str_fits (r_name r)
+  | ELabel l => props_fit (l_props l) /\ str_fits (l_text l)
+  end.
+Definition cell_fits (c : gcell) : Prop := str_fits (c_name c) /\ Forall elem_fits (cell_elems c).
+Definition lib_fits (l : glib) : Prop := str_fits (g_name l) /\ Forall cell_fits (g_cells l).
+
+Lemma pad_even_length s : (length (pad_even s) <= S (length s))%nat.
+Proof. unfold pad_even. destruct (Nat.even (length s)); [lia|]. rewrite app_length. cbn [length]. lia. Qed.
+
+Lemma rec_ok_mk t d p : t < 256 -> d < 256 -> N.of_nat (length p) <= 65528 -> rec_ok (mkrec t d p).
+Proof. intros Ht Hd Hp. unfold rec_ok, mkrec. cbn [rtype dtype payload]. lia. Qed.
+
+Lemma rec_ok_str t s : t < 256 -> str_fits s -> rec_ok (mkrec t 6 (pad_even s)).
+Proof. intros Ht Hs. apply rec_ok_mk; [assumption|lia|]. pose proof (pad_even_length s). unfold str_fits in Hs. lia. Qed.
+
+Lemma props_rec_ok ps : props_fit ps -> Forall rec_ok (prop_records ps).
+Proof.
+  induction 1 as [|[a v] ps Hv Hps IH]; [constructor|]. unfold prop_records. cbn [flat_map app]. fold (prop_records ps).
+  constructor; [apply rec_ok_mk; [lia|lia|cbn; lia]|]. constructor; [apply rec_ok_str; [lia|exact Hv]|exact IH].
+Qed.
+
+Lemma xy_rec_ok fuel : forall pts, Forall rec_ok (xy_records fuel pts).
+Proof.
+  induction fuel as [|fu IH]; intros pts; [constructor|]. cbn [xy_records]. destruct pts as [|p pts]; [constructor|].
+  constructor; [|apply IH]. apply rec_ok_mk; [lia|lia|]. rewrite enc_points_length, firstn_length.
+  unfold xy_chunk. set (n := length (p :: pts)). lia.
+Qed.
+
+Lemma strans_rec_ok refl mag rot : Forall rec_ok (strans_records refl mag rot).
+Proof.
+  unfold strans_records. destruct (negb refl && (mag =? real_one) && (rot =? 0)); [constructor|].
+  apply Forall_app. split; [|apply Forall_app; split].
+  - constructor; [|constructor]. apply rec_ok_mk; [lia|lia|destruct refl; cbn; lia].
+  - destruct (mag =? real_one); constructor; [|constructor]. apply rec_ok_mk; [lia|lia|cbn; lia].
+  - destruct (rot =? 0); constructor; [|constructor]. apply rec_ok_mk; [lia|lia|cbn; lia].
+Qed.
+
+Ltac rec_small := apply rec_ok_mk; [lia|lia|rewrite ?enc_points_length; cbn; lia].
+
+Ltac fl := repeat (apply Forall_cons; [rec_small|]); try apply Forall_nil.
+
+Lemma elem_rec_ok e : elem_fits e -> Forall rec_ok (elem_records e).
+Proof.
+  destruct e as [p|h|r|l]; cbn [elem_fits elem_records].
+  - intros Hp. unfold poly_records. destruct (length (p_pts p) <? 3)%nat; [constructor|].
+    repeat (apply Forall_app; split); try apply xy_rec_ok; try (apply props_rec_ok; assumption); fl.
+  - intros Hp. unfold path_records. destruct (length (h_pts h) <? 2)%nat; [constructor|].
+    repeat (apply Forall_app; split); try apply xy_rec_ok; try (apply props_rec_ok; assumption); try fl.
+    destruct (h_end h); fl.
+  - intros [Hp Hn]. unfold ref_records.
+    repeat (apply Forall_app; split); try apply strans_rec_ok; try (apply props_rec_ok; assumption).
+    + apply Forall_cons; [destruct (r_rep r); rec_small|]. apply Forall_cons; [apply rec_ok_str; [lia|assumption]|apply Forall_nil].
+    + destruct (r_rep r); fl.
+    + fl.
+  - intros [Hp Ht]. unfold label_records.
+    repeat (apply Forall_app; split); try apply strans_rec_ok; try (apply props_rec_ok; assumption).
+    + fl.
+    + apply Forall_cons; [rec_small|]. apply Forall_cons; [apply rec_ok_str; [lia|assumption]|apply Forall_nil].
+    + fl.
+Qed.
+
+Lemma Forall_flat_map_ {A B} (P : B -> Prop) (f : A -> list B) l :
+  Forall (fun a => Forall P (f a)) l -> Forall P (flat_map f l).
+Proof. induction 1; cbn [flat_map]; [constructor|]. apply Forall_app. split; assumption. Qed.
+
+Lemma lib_rec_ok ts l : (length ts = 6)%nat -> lib_fits l -> Forall rec_ok (lib_records ts l).
+Proof.
+  intros Hts [Hn Hc]. unfold lib_records.
+  assert (Htsb : (length (ts_bytes ts) = 24)%nat).
+  { unfold ts_bytes. do 7 (destruct ts as [|? ts]; try discriminate). reflexivity. }
+  repeat (apply Forall_app; split).
+  - apply Forall_cons; [rec_small|]. apply Forall_cons; [apply rec_ok_mk; [lia|lia|lia]|].
+    apply Forall_cons; [apply rec_ok_str; [lia|assumption]|]. fl.
+  - apply Forall_flat_map_. eapply Forall_impl; [|exact Hc]. intros c [Hcn Hce].
+    rewrite cell_records_elems. repeat (apply Forall_app; split).
+    + apply Forall_cons; [apply rec_ok_mk; [lia|lia|lia]|]. apply Forall_cons; [apply rec_ok_str; [lia|assumption]|apply Forall_nil].
+    + apply Forall_flat_map_. eapply Forall_impl; [|exact Hce]. apply elem_rec_ok.
+    + fl.
+  - fl.
+Qed.
+
+(* ================================================================== H. the round trip *)
+Theorem gds_roundtrip_lemma ts l :
+  (length ts = 6)%nat -> lib_ok l -> lib_fits l ->
+  read_gds_model None (write_gds_model ts l) = Ok (canon_lib l).
+Proof.
+  intros Hts Hok Hfit. unfold write_gds_model. apply read_of_run.
+  - apply lib_rec_ok; assumption.
+  - apply run_lib. assumption.
+Qed.
+
+(* non-vacuity: a library with every element kind meets the hypotheses, and the theorem's two sides
+   compute to the same thing on it *)
+Definition ex_lib : glib :=
+  {| g_name := [76; 73; 66]; g_units := (4485389045137408100, 4413793110932418636);
+     g_cells := [
+       {| c_name := [65]; c_polys := [ {| p_layer := 1; p_type := 2; p_pts := [(0, 0); (10, 0); (10, 5)]%Z; p_props := [(3, [104; 105])] |} ];
+          c_paths := [ {| h_layer := 4; h_type := 0; h_end := EExt; h_width := 6; h_scale_width := false; h_ext := (1, -2)%Z;
+                          h_pts := [(0, 0); (0, 100); (-50, 100)]%Z; h_props := [] |} ];
+          c_refs := []; c_labels := [ {| l_layer := 7; l_type := 1; l_text := [116; 120; 116]; l_origin := (5, -5)%Z; l_anchor := 5;
+                                         l_refl := true; l_mag := 4688247212092686336; l_rot := 0; l_props := [(9, [120]); (2, [121])] |} ] |};
+       {| c_name := [66; 66]; c_polys := []; c_paths := [];
+          c_refs := [ {| r_name := [65]; r_origin := (100, 200)%Z; r_refl := false; r_mag := 4692750811720056832; r_rot := 0;
+                         r_rep := Some {| g_cols := 3; g_rows := 2; g_regular := false; g_p2 := (400, 200)%Z; g_p3 := (100, 260)%Z |};
+                         r_props := [] |};
+                      {| r_name := [88]; r_origin := (-7, 8)%Z; r_refl := true; r_mag := 4688247212092686336; r_rot := 4779778905191841792;
+                         r_rep := None; r_props := [(1, [122])] |} ];
+          c_labels := [] |} ] |}.
+
+Example ex_lib_ok : lib_ok ex_lib /\ lib_fits ex_lib.
+Proof.
+  unfold lib_ok, lib_fits, ex_lib. cbn [g_name g_units g_cells fst snd].
+  repeat split;
+    repeat (first [ apply Forall_cons | apply Forall_nil ]);
+    unfold cell_ok, cell_fits, cell_elems, no_nul, str_fits, real_ok; cbn;
+    repeat split;
+    repeat (first [ apply Forall_cons | apply Forall_nil ]);
+    unfold poly_ok, path_ok, ref_ok, label_ok, rep_ok_g, prop_ok, props_fit, fits16, fits32, fits_pt, no_nul, str_fits, real_ok; cbn;
+    repeat split;
+    repeat (first [ apply Forall_cons | apply Forall_nil ]);
+    unfold fits32, fits_pt, prop_ok, no_nul, str_fits; cbn; repeat split;
+    repeat (first [ apply Forall_cons | apply Forall_nil ]);
+    try lia; try discriminate; try reflexivity.
+  all: try (intros p0 H; injection H as <-; discriminate).
+  all: try (intros; discriminate).
+Qed.
+
+Example ex_lib_roundtrip :
+  read_gds_model None (write_gds_model [2020; 6; 17; 11; 22; 33]%Z ex_lib) = Ok (canon_lib ex_lib).
+Proof. vm_compute. reflexivity. Qed.
